@@ -303,9 +303,9 @@ fn plan_c09(o: &Opts) -> Vec<GroupSpec> {
          members.push(MemberSpec { prog: prog.clone(), opts, meta: m });
       };
       // a seeded choice of 5-6 packagings per base
-      let mut kinds: Vec<usize> = (0..11).collect();
+      let mut kinds: Vec<usize> = (0..14).collect();
       r.shuffle(&mut kinds);
-      for &k in kinds.iter().take(6) {
+      for &k in kinds.iter().take(8) {
          match k {
             0 => add("ascent_run", PrintOpts::plain(Kind::AscentRun)),
             1 if par_ok => add("ascent_run_par", PrintOpts::plain(Kind::AscentRunPar)),
@@ -351,6 +351,22 @@ fn plan_c09(o: &Opts) -> Vec<GroupSpec> {
                op.init_rels = plain_inputs.iter().filter(|_| r.chance(60)).cloned().collect();
                if !op.init_rels.is_empty() {
                   add("initialised_relations_par", op);
+               }
+            },
+            11 | 12 | 13 if !plain_inputs.is_empty() => {
+               // an earlier declaration with an initialiser, the final one without (alone, under ascent_run, across an include)
+               let mut op = PrintOpts::plain(if k == 12 { Kind::AscentRun } else { Kind::Ascent });
+               op.redeclare_noinit = plain_inputs.iter().filter(|_| r.chance(60)).cloned().collect();
+               if k == 13 {
+                  let a = r.below(n_items + 1);
+                  let b = a + r.below(n_items - a + 1);
+                  op.include_cut = Some((a, b));
+               }
+               if r.chance(40) {
+                  op.init_rels = plain_inputs.iter().filter(|n| !op.redeclare_noinit.contains(n) && r.chance(50)).cloned().collect();
+               }
+               if !op.redeclare_noinit.is_empty() {
+                  add(["redeclared_without_initialiser", "redeclared_without_initialiser_run", "redeclared_without_initialiser_include"][k - 11], op);
                }
             },
             8 => {
